@@ -768,6 +768,11 @@ def gen_class(rng, names: Names, refs, tvs, *, private=False, depth=1, docs=True
         c.inner.append(gen_class(rng, names, refs, tvs, private=rng.random() < 0.25, depth=depth - 1, docs=docs, doc_types=doc_types))
     if docs and rng.random() < 0.6:
         c.doc = f"Doc of class {c.name}." + (" Matches */ and /* as well." if rng.random() < 0.15 else "")
+    if c.init is not None and any(p.doc for p in c.init.params) and not c.name.startswith("_") and len(c.methods) % 2 == 0:
+        # a method whose name merely ends in __init__, with a parameter that the class docstring documents as well (other text)
+        p0 = next(p for p in c.init.params if p.doc)
+        c.methods.append(Func("re__init__", [Param(p0.name, "pos", Ann("int"), doc=f"Value for the re-initialisation of {c.name}.")],
+                              ret=Ann("int"), doc=f"Doc of re__init__ of {c.name}."))
     return c
 
 
@@ -818,7 +823,7 @@ def gen_package(rng: random.Random, idx: int, *, style="plaintext", nmods=3, ree
                       methods=[Func(names.fresh("func"), [Param(names.fresh("param"), "pos", Ann("typevar", name=tv))], ret=Ann("int"))])
             m.classes.append(gc0)
         if generics and rng.random() < 0.5:
-            gtv = f"G{names.num()}{tag}"
+            gtv = f"G{names.num()}{tag}" + ("Self" if names.n % 2 == 0 else "")     # a name that merely ends in Self
             decl = rng.choice([f'{gtv} = TypeVar("{gtv}")', f'{gtv} = TypeVar("{gtv}", bound=int)',
                                f'{gtv} = TypeVar("{gtv}", bound=tuple[int, str])', f'{gtv} = TypeVar("{gtv}", set[int], list[int])',
                                f'{gtv} = TypeVar("{gtv}", covariant=True)'])
@@ -1029,6 +1034,9 @@ def gen_package(rng: random.Random, idx: int, *, style="plaintext", nmods=3, ree
             mm.funcs.append(Func(names.fresh("func"), [], ret=Ann("int"), body=f"made = {bname}()\nreturn 1 if made else 0"))
         udir = ma.path.rsplit("/", 1)[0]
         uname = names.fresh("mod").lstrip("_")
+        mb_short = mb.dotted.rsplit(".", 1)[1]
+        if mb.path.rsplit("/", 1)[0] != udir and not any(m_.path == f"{udir}/{mb_short}.py" for m_ in mods):
+            uname = mb_short     # the deriving module is named like the module of the OTHER candidate (in another directory)
         user = Module(f"{udir}/{uname}.py", f"{ma.dotted.rsplit('.', 1)[0]}.{uname}")
         alias = f"sh{names.num()}"
         user.imports.append(f"import {ma.dotted} as {alias}")
